@@ -2,3 +2,4 @@ import Props.C09
 import Props.C01
 import Props.C02
 import Props.C12
+import Props.C08
